@@ -65,6 +65,17 @@ def scenarios(ob):
             if a is not b:
                 out.append('reaping worker 99 replaced Pool.%s by a new object: the result handler / supervisor keep '
                            'using the old one (now %r, pool has %r)' % (name, a, b))
+    elif 'vanished_worker' in ob or 'gone_worker' in ob:
+        # the worker that accepted the job was reaped in an earlier tick, before its ACK was handled; a later tick
+        # reaps another worker: the job must get its loss record then
+        other = FakeWorker(99, exitcode=155)
+        p = mkpool([FakeWorker(7), other])
+        job = pool.ApplyResult(p._cache, None)
+        job._ack(None, 900.0, 4242, None)           # 4242 is not in the pool any more
+        p._join_exited_workers()
+        if not job.ready() and not job._worker_lost:
+            out.append('job accepted by worker 4242, which is no longer in the pool; worker 99 reaped in this tick: the job '
+                       'got no loss record (it will never fail with WorkerLostError)')
     elif 'reaped_worker_is_marked' in ob:
         dead = FakeWorker(4242, exitcode=-9)
         p = mkpool([FakeWorker(7), dead])
